@@ -99,3 +99,23 @@ PROPS["C10"] = {
     "quick": [R("TestPropAggregator", 4000, steps=60)],
     "thorough": [R("TestPropAggregator", 60000, shards=16, steps=80, timeout=2400)],
 }
+
+PROPS["C12"] = {
+    "pkg": "c12", "level": "exploration",
+    "rule": ("rapid draws a byte stream of 0-12 lines (empty, short, around 4 KiB / 8 KiB, just below 64 KiB, CR inside a line; terminators LF or CRLF; "
+             "last line with or without terminator) and a segmentation (none, one-byte reads, fixed sizes incl. 4095/4096/4097, random cuts; for "
+             "streams <= 64 bytes EVERY single cut position), and an end mode (0,EOF / data+EOF / data+timeout error / 0,timeout). Entry points: "
+             "input.NewPlain(d).Handle(scripted reader); Listener.HandleConn over net.Pipe wrapped in input.NewTimeoutConn; Listener.HandleData "
+             "per datagram; consumeAMQP through the verif-tagged delivery setter (bodies with lines <= 4096 bytes incl. terminator). Oracle: "
+             "reference split (cut at LF, strip one trailing CR, keep a final unterminated piece); dispatcher arguments copied at call time must "
+             "equal the reference's non-empty lines, in order, each once. Non-trivial: >=2 lines and >=1 cut strictly inside a line (datagram / "
+             "AMQP: >=2 lines over >=1 message). Distinct = hash(stream, cuts, end mode)."),
+    "level_text": "Generated streams x segmentations (exhaustive cut positions for short streams) against a reference line splitter at all four entry points; holds on everything generated.",
+    "level_note": "Lines longer than the supported limits (64 KiB incl. terminator on TCP/UDP, 4096 bytes incl. terminator on AMQP) are outside the generated domain; empty lines may be dispatched or skipped.",
+    "technique": "property-based testing (rapid): reference-model oracle + metamorphic invariance under segmentation; native go fuzz target in the thorough tier",
+    "assumptions": ["net.Pipe stands in for a TCP connection (real sockets are used by C05-C07)"],
+    "quick": [R("TestPropPlainChunking", 3000), R("TestPropListenerConn", 600), R("TestPropListenerDatagram", 2000), R("TestPropAMQPBodies", 1500)],
+    "thorough": [R("TestPropPlainChunking", 40000, shards=8, timeout=2400), R("TestPropListenerConn", 6000, shards=3, timeout=2400),
+                 R("TestPropListenerDatagram", 40000, shards=2, timeout=2400), R("TestPropAMQPBodies", 20000, shards=2, timeout=2400),
+                 F("FuzzPlainChunking", "120s")],
+}
